@@ -1042,3 +1042,34 @@ def oracle_C13(results, metas, st):
                     if len(d[1]) != sd[0] * sd[1]:
                         out.append(viol('a combined %d x %d distribution has %d bins' % (sd[0], sd[1], len(d[1])), [r['case']])); break
     return out
+
+
+# ---- C04 under real MPI (OpenMPI, mpirun) --------------------------------------------------------------------
+def extra_C04(rng, tier, st, cov):
+    import tie
+    out = []; stats = {'runs': 0, 'checks_passed': 0, 'world_sizes': []}
+    try:
+        exe = tie.mpireal_build()
+    except tie.Stage as e:
+        return [viol('the MPI drivers do not compile with the real MPI headers: ' + e.detail[-300:], [], tie=True)]
+    worlds = [2, 3] if tier == 'quick' else [1, 2, 3, 5, 8]
+    for P in worlds:
+        seed = rng.getrandbits(20)
+        try:
+            p = subprocess.run(['timeout', '300', 'mpirun', '--allow-run-as-root', '--oversubscribe', '-np', str(P), exe, str(seed)],
+                               stdout=subprocess.PIPE, stderr=subprocess.PIPE, universal_newlines=True, timeout=400)
+        except subprocess.TimeoutExpired:
+            out.append(viol('real MPI run with %d processes did not finish (a rank hangs in a collective)' % P, [], {'mpirun_np': P, 'seed': seed})); continue
+        stats['runs'] += 1; stats['world_sizes'].append(P)
+        if p.returncode == 124:
+            out.append(viol('real MPI run with %d processes did not finish within 300 s (a rank hangs in a collective)' % P, [], {'mpirun_np': P, 'seed': seed})); continue
+        summary = [l for l in p.stdout.split('\n') if l.startswith('SUMMARY')]
+        for l in p.stdout.split('\n'):
+            if l.startswith('FAIL C04'):
+                out.append(viol('real MPI, %d processes: %s' % (P, l[9:]), [], {'mpirun_np': P, 'seed': seed}))
+        if not summary:
+            out.append(viol('real MPI run with %d processes ended abnormally (exit %d): %s' % (P, p.returncode, (p.stderr or p.stdout)[-300:]), [], {'mpirun_np': P, 'seed': seed}))
+        else:
+            stats['checks_passed'] += int(summary[0].split('ok=')[1].split()[0])
+    cov.setdefault('extra', {})['real_mpirun'] = stats
+    return out
